@@ -1,7 +1,8 @@
 --------------------------- MODULE MC_FileAppender ---------------------------
 EXTENDS FileAppender
-CONSTANTS Shapes, PerThread
+CONSTANTS Shapes, PerThread, MaxFail
 MCNext == \E t \in Threads : (done[t] < PerThread /\ \E sh \in Shapes : Begin(t, sh)) \/ Lock(t) \/ Encode(t) \/ Flush(t) \/ Unlock(t)
+                             \/ (Cardinality(failed) < MaxFail /\ EncodeFail(t))
 MCSpec == Init /\ [][MCNext]_vars
 Shapes6 == { <<>>, <<0>>, <<1>>, <<3>>, <<4>>, <<5>>, <<3, 3>>, <<1, 4>>, <<2, 2, 1>> }
 =============================================================================
